@@ -439,7 +439,7 @@ struct Slot {
 /// text of its own
 fn show_slot(k: &str, err: &Option<String>) -> String {
     let generic = match k {
-        "int" | "usz" => Some("ERR value is not an integer or out of range"),
+        "int" | "usz" | "pos" => Some("ERR value is not an integer or out of range"),
         "flt" => Some("ERR value is not a valid float"),
         _ => None,
     };
@@ -617,6 +617,16 @@ fn describe(cx: &Cx, name: &str, body: (usize, usize)) -> Row {
                         }
                     }
                     for l in lits { attributed.insert(l); }
+                    // `let N = <integer extraction>?; if N < 1 { return Err("ERR syntax error") }`: a count that must be
+                    // at least 1 (SCAN / HSCAN / ZSCAN COUNT) — slot kind `pos`, its range text belongs to the slot
+                    if kind == "int" && xs >= 3 {
+                        if let Some((_, c)) = cx.at(xs - 3, "let $i =") {
+                            let stmt_end = (xe..be).find(|j| is_p(&t[*j], ";")).unwrap_or(be);
+                            if let Some((_, c2, ix)) = m_at_ix(t, stmt_end + 1, &format!("if {} < 1 {{ return Err ( $s", c[0]), cx.arr) {
+                                if c2[0] == "ERR syntax error" { kind = "pos".into(); attributed.insert(ix[0]); }
+                            }
+                        }
+                    }
                     kinds.push(show_slot(&kind, &err));
                 }
                 let missing = if kinds.is_empty() { "m=-".to_string() } else {
@@ -1203,7 +1213,7 @@ pub fn parse_row(line: &str) -> Row {
     r
 }
 
-const NUMERIC: &[&str] = &["int", "u64", "usz", "u32", "flt"];
+const NUMERIC: &[&str] = &["int", "u64", "usz", "u32", "flt", "pos"];
 
 /// field equality; a source-side `num` (a `.parse()` whose target type the syntax does not show) matches any
 /// numeric kind of the model with the same error text
@@ -1262,7 +1272,7 @@ fn lean_arity(a: &str) -> Option<String> {
 fn lean_arg(a: &str) -> Option<String> {
     let (k, err) = match a.split_once('!') { Some((k, e)) => (k, Some(e)), None => (a, None) };
     let kind = match k {
-        "str" | "sds" | "int" | "u64" | "flt" | "usz" | "kw" | "u32" => format!(".k .{}", k),
+        "str" | "sds" | "int" | "u64" | "flt" | "usz" | "kw" | "u32" | "pos" => format!(".k .{}", k),
         "num" => ".num".to_string(),
         _ => return None,
     };
